@@ -502,18 +502,48 @@ def descendSurvivor (r : Result) : Option Node :=
   | .node n => some (survivor (descend n))
   | _ => none
 
-/-- a child taken out of its element by `remove(int)`, `remove(const Xml&)`, `clear()` or `put(value)`:
-    `orphan(i)` clears its parent pointer when it leaves (commit dcdfbd7), the subtree below it is untouched -/
-def detached (c : Node) : Node := c.clearParent
+/-- the ways a child can leave the element that contains it -/
+inductive Mutator where
+  /-- `remove(int)`, `remove(const Xml&)`, `clear()`, `put(value)`: go through `orphan(i)` (commit dcdfbd7) -/
+  | remove | removeE | clear | put
+  /-- through the `Array<Xml>&` that the non-const `children()` hands out: `children().remove(i)`,
+      `.clear()`, `.resize(0)`, `children()[i] = x` — no code of `Xml` runs, nothing is orphaned
+      (known finding `raw-children-array`) -/
+  | rawRemove | rawClear | rawResize | rawAssign
+  deriving DecidableEq, Repr
 
-/-- `Xml r = decode(x); Xml p = <k-th node of r>; Xml c = p.child(j); p.<mutator>;` then `c`
+/-- does the child's parent pointer get cleared when it leaves?  POSTULATE of the model: it states what
+    `orphan()` does for the four API mutators and that the raw array operations do nothing of the kind;
+    the model has no heap, so this is tied to the code by K (op `mut`) only -/
+def Mutator.orphans : Mutator → Bool
+  | .remove | .removeE | .clear | .put => true
+  | .rawRemove | .rawClear | .rawResize | .rawAssign => false
+
+/-- the child as its remaining handle shows it right after the mutation, the former parent still alive -/
+def detachedBy (m : Mutator) (c : Node) : Node := if m.orphans then c.clearParent else c
+
+/-- what the remaining handle's parent pointer is once the former parent has been destroyed as well -/
+inductive ParentAfter where
+  | null
+  /-- still the address of the destroyed element: reading it (`parent()`) is a use after free -/
+  | dangling (id : Nat)
+
+def parentAfterRelease (m : Mutator) (c : Node) : ParentAfter :=
+  match (detachedBy m c).parent with
+  | none => .null
+  | some p => .dangling p
+
+/-- a child taken out by one of the four API mutators (kept under its old name) -/
+def detached (c : Node) : Node := detachedBy .remove c
+
+/-- `Xml r = decode(x); Xml p = <k-th node of r>; Xml c = p.child(j); p.<mutator m>;` then `c`
     (`none` when the k-th node is a text node or has no children) -/
-def pickDetached (r : Result) (k j : Nat) : Option Node :=
+def pickDetached (r : Result) (k j : Nat) (m : Mutator) : Option Node :=
   match r with
   | .node n =>
     let l := preorder n
     match l[k % l.length]? with
-    | some (.elem _ _ _ _ cs) => (cs[j % cs.length]?).map detached
+    | some (.elem _ _ _ _ cs) => (cs[j % cs.length]?).map (detachedBy m)
     | _ => none
   | _ => none
 
